@@ -37,13 +37,15 @@ def get_sys(shape, which=0):
     from quara.objects.composite_system import CompositeSystem
     from quara.objects.elemental_system import ElementalSystem
     from quara.objects import matrix_basis as mb
-    base = 100 * which + {"1q": 0, "3": 10, "2q": 20, "1q-pauli": 30, "1q-herm": 40, "2q-exact": 50}[shape]
+    base = 100 * which + {"1q": 0, "3": 10, "2q": 20, "1q-pauli": 30, "1q-herm": 40, "2q-exact": 50, "2x3": 60}[shape]
     if shape == "1q":
         c = CompositeSystem([ElementalSystem(base, mb.get_normalized_pauli_basis())])
     elif shape == "3":
         c = CompositeSystem([ElementalSystem(base, mb.get_normalized_gell_mann_basis())])
     elif shape == "2q":
         c = CompositeSystem([ElementalSystem(base, mb.get_normalized_pauli_basis()), ElementalSystem(base + 1, mb.get_normalized_pauli_basis())])
+    elif shape == "2x3":           # UNEQUAL local dimensions: qubit (Pauli) (x) qutrit (Gell-Mann), d = 6
+        c = CompositeSystem([ElementalSystem(base, mb.get_normalized_pauli_basis()), ElementalSystem(base + 1, mb.get_normalized_gell_mann_basis())])
     elif shape == "2q-exact":
         # ONE 4-level system whose basis is the 2-qubit normalised Pauli basis with EXACT entries +-1/2, +-i/2 (quara's own product basis
         # is (1/sqrt 2)^2 = 0.5000000000000001 in floats): with dyadic operands every float operation of the implementation is exact
@@ -60,8 +62,8 @@ def get_sys(shape, which=0):
 
 def sys_id(c_sys):
     for (shape, which), (c, _, _) in _SYS.items():
-        if c is c_sys:
-            return 1000 * which + {"1q": 1, "3": 2, "2q": 3, "1q-pauli": 4, "1q-herm": 5, "2q-exact": 6}[shape]
+        if c == c_sys:               # CompositeSystem.__eq__: same ElementalSystem objects (an equal-but-not-identical instance is the same system)
+            return 1000 * which + {"1q": 1, "3": 2, "2q": 3, "1q-pauli": 4, "1q-herm": 5, "2q-exact": 6, "2x3": 7}[shape]
     return -1
 
 
@@ -564,12 +566,15 @@ def floatify(mo):
 def sub_chains(ctx):
     rng = ctx.rng
     cases = []
-    plan = ctx.n([("1q", 34), ("3", 14), ("2q", 6)], [("1q", 260), ("3", 110), ("2q", 40)])
+    plan = ctx.n([("1q", 34), ("3", 14), ("2q", 6), ("2x3", 2)], [("1q", 260), ("3", 110), ("2q", 40), ("2x3", 8)])
     for shape, cnt in plan:
-        d = {"1q": 2, "3": 3, "2q": 4}[shape]
+        d = {"1q": 2, "3": 3, "2q": 4, "2x3": 6}[shape]
         for i in range(cnt):
-            length = rng.choice([2, 3, 3, 4, 4, 5] if d < 4 else [2, 3, 3, 4])
+            length = rng.choice([2, 3, 3, 4, 4, 5] if d < 4 else ([2, 3, 3, 4] if d == 4 else [2, 3]))
             descs = gen_chain(rng, d, length)
+            if shape == "2x3":      # unequal local dimensions: a fixed rota of type patterns (independent of the seed), unequal outcome counts
+                descs = [[G.gen_povm(rng, d, m=3), G.gen_mproc(rng, d, m=2), G.gen_state(rng, d)], [G.gen_mproc(rng, d, m=3), G.gen_mproc(rng, d, m=2)],
+                         [G.gen_gate(rng, d), G.gen_mproc(rng, d, m=2), G.gen_state(rng, d)], [G.gen_povm(rng, d, m=2), G.gen_gate(rng, d)]][i % 4]
             if rng.random() < 0.3:
                 align_zero(rng, descs, d)
             L = len(descs)
@@ -1179,9 +1184,172 @@ def sub_sampling(ctx):
     ctx.run_cases("sampling", chk_sampling, cases)
 
 
+# ------------------------------------------------------------------ robustness of composition against HOW the operands were made
+LAYOUTS = ["fortran", "transposed-view", "strided", "readonly", "strided-readonly"]
+
+
+def relayout(a, how):
+    """the same numbers in a different memory layout"""
+    a = np.asarray(a, dtype=np.float64)
+    if how == "fortran":
+        out = np.asfortranarray(a.copy())
+    elif how == "transposed-view":
+        out = a.T.copy().T if a.ndim == 2 else a.copy()[::1]
+    elif how in ("strided", "strided-readonly"):
+        big = np.full(tuple(2 * k for k in a.shape), 7.25)
+        big[tuple(slice(None, None, 2) for _ in a.shape)] = a
+        out = big[tuple(slice(None, None, 2) for _ in a.shape)]
+    else:
+        out = a.copy()
+    if how in ("readonly", "strided-readonly"):
+        out.setflags(write=False)
+    return out
+
+
+def rebuild(o, c_sys, how):
+    """a fresh quara object with the same content as o, on c_sys, its arrays laid out as `how`"""
+    from quara.objects.state import State
+    from quara.objects.gate import Gate
+    from quara.objects.povm import Povm
+    from quara.objects.mprocess import MProcess
+    if type(o) == State:
+        return State(c_sys, relayout(o.vec, how))
+    if type(o) == Gate:
+        return Gate(c_sys, relayout(o.hs, how))
+    if type(o) == Povm:
+        if how == "strided":        # all elements are row views into ONE 2-d buffer
+            buf = np.array([np.asarray(v, dtype=np.float64) for v in o.vecs])
+            return Povm(c_sys, [buf[i] for i in range(len(o.vecs))])
+        return Povm(c_sys, [relayout(v, how) for v in o.vecs])
+    return MProcess(c_sys, [relayout(h, how) for h in o.hss], shape=o.shape, eps_zero=o.eps_zero)
+
+
+def arrays_of(o):
+    from quara.objects.state_ensemble import StateEnsemble
+    from quara.objects.multinomial_distribution import MultinomialDistribution
+    if type(o) == StateEnsemble:
+        return [s_.vec for s_ in o.states] + [o.prob_dist.ps]
+    if type(o) == MultinomialDistribution:
+        return [o.ps]
+    mo = {"State": lambda: [o.vec], "Gate": lambda: [o.hs], "Povm": lambda: list(o.vecs), "MProcess": lambda: list(o.hss)}
+    return mo[type(o).__name__]()
+
+
+def snapshot(o):
+    return [np.array(a, dtype=np.float64, copy=True) for a in arrays_of(o)]
+
+
+def same_snapshot(a, b, tol=0.0):
+    return len(a) == len(b) and all(x.shape == y.shape and (np.abs(x - y).max() <= tol if x.size else True) for x, y in zip(a, b))
+
+
+def chk_robust(ctx, case):
+    """composition must not depend on HOW its operands were made: memory layout of the arrays handed to the constructors (Fortran order, transposed
+    view, strided view, read-only), an equal-but-not-identical CompositeSystem instance (same ElementalSystem objects), the route by which an
+    instrument / POVM / ensemble was built (Kraus data vs Povm.generate_mprocess(2, states) vs MProcess.to_povm vs a previous composition), and it
+    must be repeatable after the caller has written into the arrays of an earlier result; the operands' own arrays are never changed."""
+    from quara.objects.composite_system import CompositeSystem
+    from quara.objects.state_ensemble import StateEnsemble
+    from quara.objects.povm import Povm
+    shape = case["shape"]; descs = case["descs"]; mode = case["mode"]
+    c, B, d = get_sys(shape); n = d * d; sd = float(np.sqrt(d))
+    ref_objs = [build(ds, shape) for ds in descs]
+    ref = call_impl(lambda: eval_impl(None, ref_objs, True))
+    ctx.count("robust", key=repr(case), label="%s %s" % (shape, mode if mode in ("instance", "history", "route") else "layout:" + mode))
+    if ref[0] != "ok":
+        return            # the reference itself is the business of the chains sub-check
+    ref_m = mobj_of_impl(ref[1])
+    site = "operators.compose_qoperations"
+    if mode in LAYOUTS:
+        objs = [rebuild(o, c, mode) for o in ref_objs]
+        before = [snapshot(o) for o in objs]
+        got = call_impl(lambda: eval_impl(None, objs, True))
+        if got[0] != "ok":
+            ctx.violation("robust", site, "array-layout:raises", "operands with %s arrays: composition raised %s: %s (types %s)" % (mode, got[1], got[2], [x["t"] for x in descs]), case); return
+        dm = mobj_diff(ref_m, mobj_of_impl(got[1]), 1e-12)
+        if dm is not None:
+            ctx.violation("robust", site, "array-layout:value", "operands with %s arrays give a different result than C-contiguous copies: %s (types %s)" % (mode, dm, [x["t"] for x in descs]), case); return
+        if not all(same_snapshot(b_, snapshot(o)) for b_, o in zip(before, objs)):
+            ctx.violation("robust", site, "mutates-operand", "composition changed an array of one of its operands (%s layout)" % mode, case)
+        return
+    if mode == "instance":
+        c2 = CompositeSystem(list(c.elemental_systems))
+        if c2 is c or not (c2 == c):
+            raise AssertionError("harness: second CompositeSystem instance is not equal-but-not-identical")
+        objs = [rebuild(o, c2 if i % 2 == 0 else c, "copy") for i, o in enumerate(ref_objs)]
+        got = call_impl(lambda: eval_impl(None, objs, True))
+        if got[0] != "ok":
+            ctx.violation("robust", "operators._compose_qoperations", "equal-composite-system-instance", "operands on two EQUAL CompositeSystem instances (same ElementalSystem objects): raised %s: %s" % got[1:], case); return
+        dm = mobj_diff(ref_m, mobj_of_impl(got[1]), 1e-12)
+        if dm is not None:
+            ctx.violation("robust", "operators._compose_qoperations", "equal-composite-system-instance", "result differs on two equal CompositeSystem instances: %s" % dm, case)
+        return
+    if mode == "history":
+        before = [snapshot(o) for o in ref_objs]
+        snap = snapshot(ref[1])
+        touched = 0
+        for a in arrays_of(ref[1]):
+            a = np.asarray(a)
+            if a.flags.writeable and a.size:
+                a += 0.125; touched += 1               # the caller scribbles over the returned arrays
+        again = call_impl(lambda: eval_impl(None, ref_objs, True))
+        if again[0] != "ok":
+            ctx.violation("robust", site, "history:raises", "second composition of the same operands raised %s: %s after the caller wrote into the first result" % again[1:], case); return
+        if not same_snapshot(snap, snapshot(again[1]), 1e-12):
+            ctx.violation("robust", site, "history:value", "composing the same operands again gives a different result after the caller wrote into the arrays of the first result (%d arrays written; types %s)" % (touched, [x["t"] for x in descs]), case); return
+        if not all(same_snapshot(b_, snapshot(o)) for b_, o in zip(before, ref_objs)):
+            ctx.violation("robust", site, "history:operand-aliased", "writing into the arrays of a composition result changed an operand (types %s)" % [x["t"] for x in descs], case)
+        return
+    # mode == "route": the same operands reached another way
+    objs = list(ref_objs)
+    for i, (ds, o) in enumerate(zip(descs, ref_objs)):
+        if ds["t"] == "mproc" and ds.get("kind") == "prep":
+            effects = [vec_of(B, G.gfloat(G.gfromjson(e["prep"][0]))) for e in ds["elems"]]
+            posts = [build({"t": "state", "rho": e["prep"][1]}, shape) for e in ds["elems"]]
+            objs[i] = Povm(c, effects).generate_mprocess(2, posts)                         # measure-and-prepare through the POVM API
+        elif ds["t"] == "povm" and i == 0 and len(descs) >= 2 and descs[1]["t"] == "mproc":
+            pass
+    got = call_impl(lambda: eval_impl(None, objs, True))
+    if got[0] != "ok" or mobj_diff(ref_m, mobj_of_impl(got[1]), 1e-9) is not None:
+        ctx.violation("robust", site, "route:generate_mprocess", "an instrument built with Povm.generate_mprocess(2, states) composes differently from the same instrument built from its HS matrices: %s" % (
+            got[1:] if got[0] != "ok" else mobj_diff(ref_m, mobj_of_impl(got[1]), 1e-9),), case); return
+    # an ensemble / POVM obtained by an earlier composition vs the same object handed over directly (StateEnsemble constructor, Povm constructor)
+    if len(ref_objs) >= 3:
+        inner = eval_impl(None, ref_objs[1:], True)
+        if type(inner) == StateEnsemble:
+            direct = StateEnsemble([rebuild(s_, c, "copy") if np.abs(s_.vec).max() > 0 else s_ for s_ in inner.states], inner.prob_dist, eps_zero=inner.eps_zero)
+            got2 = call_impl(lambda: eval_impl(None, [ref_objs[0], direct], True))
+            if got2[0] != "ok" or mobj_diff(ref_m, mobj_of_impl(got2[1]), 1e-9) is not None:
+                ctx.violation("robust", site, "route:ensemble", "composition with a StateEnsemble built by its constructor differs from the one obtained by composition", case)
+        head = eval_impl(None, ref_objs[:-1], True)
+        if type(head) == Povm:
+            direct = Povm(c, [np.array(v, copy=True) for v in head.vecs], is_physicality_required=False)
+            a_ = call_impl(lambda: eval_impl(None, [direct, ref_objs[-1]], True)); b_ = call_impl(lambda: eval_impl(None, [head, ref_objs[-1]], True))
+            if a_[0] != b_[0] or (a_[0] == "ok" and mobj_diff(mobj_of_impl(a_[1]), mobj_of_impl(b_[1]), 1e-12) is not None):
+                ctx.violation("robust", site, "route:povm", "a Povm rebuilt from the vectors of a composed Povm composes differently", case)
+
+
+def sub_robust(ctx):
+    rng = ctx.rng
+    cases = []
+    plan = [("1q", 2, ctx.n(2, 10)), ("3", 3, ctx.n(1, 6))]
+    for shape, d, reps in plan:
+        for mode in LAYOUTS + ["instance", "history", "route"]:
+            for r in range(reps):
+                L = rng.choice([2, 3, 3, 4])
+                descs = gen_chain(rng, d, L)
+                if mode == "route":          # make sure a measure-and-prepare instrument and a state are in the chain
+                    descs = [G.gen_povm(rng, d), G.gen_mproc(rng, d, kind="prep"), G.gen_mproc(rng, d, m=2), G.gen_state(rng, d)][rng.choice([0, 1]):]
+                if mode == "history" and r % 2 == 0:
+                    descs = [G.gen_gate(rng, d), G.gen_mproc(rng, d, m=2), G.gen_state(rng, d)]      # Gate on a StateEnsemble: the result re-uses the incoming distribution object
+                cases.append({"shape": shape, "mode": mode, "descs": descs})
+    ctx.sample("robust", {"shape": cases[0]["shape"], "mode": cases[0]["mode"], "types": [x["t"] for x in cases[0]["descs"]]})
+    ctx.run_cases("robust", chk_robust, cases)
+
+
 SUBS = [("chains", sub_chains), ("thresholds", sub_thresholds), ("errors", sub_errors), ("generic_basis", sub_generic_basis),
-        ("gen_mprocess", sub_gen_mprocess), ("sampling", sub_sampling)]
-FNS = {"chains": chk_chain, "thresholds": chk_threshold, "errors": chk_errors, "generic_basis": chk_generic_basis, "sampling": chk_sampling,
+        ("gen_mprocess", sub_gen_mprocess), ("sampling", sub_sampling), ("robust", sub_robust)]
+FNS = {"chains": chk_chain, "thresholds": chk_threshold, "errors": chk_errors, "generic_basis": chk_generic_basis, "sampling": chk_sampling, "robust": chk_robust,
        "gen_mprocess": lambda ctx, case: (chk_gm_errors if "post" in case else chk_gen_mprocess)(ctx, case)}
 
 
@@ -1250,10 +1418,15 @@ def run(ctx):
         ctx.note("regenerated-model obligations (gen/c06_py2coq.py / C06_Equiv) not discharged: %s" % str(info2)[:400])
     if not ok:
         ctx.discharged = min(ctx.discharged, ctx.obligations - 1)
-        # the tie is broken: widen the search for a concrete failing input (thorough-tier case counts for every sub-check)
-        ctx.tier_requested = ctx.tier
-        ctx.tier = "thorough"
-        ctx.note("tie broken: sub-checks run with thorough-tier counts")
+        # the tie is broken: widen the search for a concrete failing input - three times the case counts of the requested tier, capped by the
+        # thorough counts (the full thorough sweep would take the quick tier beyond its time limit)
+        def widened(q, t):
+            if isinstance(q, list):
+                tc = dict(t)
+                return [(name, min(tc.get(name, 3 * cnt), 3 * cnt)) for name, cnt in q]
+            return min(t, 3 * q) if ctx.tier == "quick" else t
+        ctx.n = widened
+        ctx.note("tie broken: sub-checks run with widened case counts (3 x tier counts)")
     for name, fn in SUBS:
         if ctx.only is None or name in ctx.only:
             fn(ctx)
